@@ -117,7 +117,7 @@ def compile_one(cmd, src, obj, hc, force=False):
         except Exception:
             pass
     full = cmd + ["-MD", "-MF", dep, "-c", src, "-o", obj]
-    r = subprocess.run(full, stdout=subprocess.PIPE, stderr=subprocess.STDOUT, text=True)
+    r = subprocess.run(full, stdout=subprocess.PIPE, stderr=subprocess.STDOUT, text=True, errors="replace")
     if r.returncode != 0:
         return obj, True, "COMPILE FAILED: %s\n%s" % (" ".join(full), r.stdout[-4000:])
     deps = parse_dep(dep) or [src]
@@ -270,7 +270,7 @@ def build_harness(name, sources, flavour, variant, extra_cflags=(), extra_ldflag
                               " ".join(lflags) + " ".join(extra_ldflags) + " ".join(libs)).encode()).hexdigest()
         if not os.path.exists(exe) or not os.path.exists(stamp) or open(stamp).read() != key:
             cmd = [cxx] + lflags + ["-pthread"] + objs + ([lib] if link_lib else []) + list(extra_ldflags) + list(libs) + ["-o", exe]
-            r = subprocess.run(cmd, stdout=subprocess.PIPE, stderr=subprocess.STDOUT, text=True)
+            r = subprocess.run(cmd, stdout=subprocess.PIPE, stderr=subprocess.STDOUT, text=True, errors="replace")
             if r.returncode != 0:
                 raise RuntimeError("link failed (%s): %s\n%s" % (name, " ".join(cmd), r.stdout[-4000:]))
             open(stamp, "w").write(key)
